@@ -2478,6 +2478,11 @@ def line_end_follows_child_lines(prog, rep, R):
         if partners:
             continue
         label = [k for k in LAST_LINE_READERS_REVIEWED if k.split("::")[0].strip("<").split(" ")[0] in b.npath]
+        if not label:
+            # a private helper of a reviewed reader (its loop over the sibling child lines extracted) is part of it
+            root_fn = OLF + "InternalOptimisingLineFormatter::find_optimal_child_lines_solution"
+            if b.npath in helper_closure(prog, {b.npath}, {root_fn}):
+                label = ["find_optimal_child_lines_solution"]
         if label:
             rep.exception(R, "reviewed-reader:%s" % label[0], LAST_LINE_READERS_REVIEWED[label[0]])
             continue
